@@ -30,11 +30,22 @@ EXPLANATION = (
     "arms of output.value_to_pytd_type/value_to_pytd_def (frozen list, "
     "resolved through abstract/abstract.py re-exports, *_TYPES tuples and "
     "base classes) still reaches an arm before the final `raise "
-    "NotImplementedError`; R6.3 Loader.process_module, "
+    "NotImplementedError` (the dispatch may be one if/elif chain whose else "
+    "is the raise, or a sequence of if-statements with returning bodies "
+    "followed by the raise - an arm whose body can fall through does not "
+    "count then - and may continue in a method of the same class that is "
+    "tail-called with the value); R6.3 Loader.process_module, "
     "PickledPyiLoader.load_module, _ModuleMap._unpickle_module and "
     "BuiltinsAndTyping.load return / mark as resolved only ASTs that passed "
     "through FillInLocalPointers / serialize_ast.ProcessAst "
-    "(_LookupClassReferences then FillLocalReferences); R6.4 Annotated "
+    "(_LookupClassReferences then FillLocalReferences, whose .ast is "
+    "returned through a local or directly); the re-link facts are a "
+    "must-dataflow that follows `self.<method>(..)` calls into methods of the "
+    "same class (local MRO, up to three levels): such a call contributes what "
+    "holds at every non-raising exit of the method and kills what the method "
+    "may store, with its parameters mapped to the call's arguments, so the "
+    "resolve/fill sequence of process_module may live in a private helper; "
+    "R6.4 Annotated "
     "marker strings and metadata tags written by output.py/attr_overlay are "
     "the ones convert.py, decorate.py and the parser test for; R6.5 every "
     "typing./builtins. qualified name output.py writes is defined in the "
@@ -468,22 +479,77 @@ def class_ancestors(ctx, rel, cls):
   return ctx.memo(("c06.anc", rel, cls), build)
 
 
+def _is_nie(stmt):
+  return isinstance(stmt, ast.Raise) and "NotImplementedError" in src(stmt)
+
+
+def _dispatch_tests(mod, cls, fn, param, depth=0):
+  """Tests of the arms of a class dispatch on `param` that keep a value away from the final
+  `raise NotImplementedError`.
+
+  Accepted spellings of the dispatch (top-level statements of the method): one if/elif chain whose
+  `else` is the raise (every arm counts: leaving an arm never reaches the raise); a sequence of
+  if-statements / chains followed by an unconditional raise (an arm counts only if its body always
+  returns or raises - otherwise the value falls through to the raise); either form may end in a tail
+  call `return self.<method>(.., param, ..)` of a method of the same class that continues the dispatch.
+  """
+  qual = f"{cls}.{fn.name}"
+  if depth > 3:
+    raise AnalysisError(f"{qual}: dispatch helpers nested too deep")
+  body = [st for st in fn.body if not (isinstance(st, ast.Expr) and isinstance(st.value, ast.Constant))]
+  heads = [st for st in body if isinstance(st, ast.If)]
+  if not heads:
+    raise AnalysisError(f"{qual}: no isinstance dispatch found")
+  last = body[-1]
+  tests = []
+  if len(heads) == 1 and last is heads[0]:
+    chain, els = _c05.if_chain(heads[0])
+    if not (len(els) == 1 and _is_nie(els[0])):
+      raise AnalysisError(f"{qual}: chain no longer ends in raise NotImplementedError")
+    return [t for t, _ in chain]
+  for h in heads:
+    chain, els = _c05.if_chain(h)
+    if h is last:
+      raise AnalysisError(f"{qual}: the dispatch ends in an if-statement without a final raise")
+    if els and not flow.terminates(els):
+      raise AnalysisError(f"{qual}: an `else` arm of the dispatch falls through")
+    tests += [t for t, b in chain if flow.terminates(b)]
+  if _is_nie(last):
+    return tests
+  v = last.value if isinstance(last, ast.Return) else None
+  if isinstance(v, ast.Call) and isinstance(v.func, ast.Attribute) and dotted(v.func.value) == "self" \
+      and v.func.attr in mod.methods(cls) and not v.keywords and not any(isinstance(a, ast.Starred) for a in v.args):
+    callee = mod.methods(cls)[v.func.attr]
+    pos = [i for i, a in enumerate(v.args) if dotted(a) == param]
+    names = [a.arg for a in callee.args.posonlyargs + callee.args.args][1:]
+    if len(pos) != 1 or pos[0] >= len(names) or callee.args.vararg or callee.args.kwarg:
+      raise AnalysisError(f"{qual}: tail call {src(v)[:60]} does not hand on `{param}` as one plain argument")
+    stored = {n.id for n in ast.walk(fn) if isinstance(n, ast.Name) and not isinstance(n.ctx, ast.Load)}
+    if param in stored:
+      raise AnalysisError(f"{qual}: `{param}` is rebound before the tail call")
+    sub = _dispatch_tests(mod, cls, callee, names[pos[0]], depth + 1)
+    # the continuation's tests speak about its own parameter name
+    ren = names[pos[0]]
+    if ren != param:
+      class R(ast.NodeTransformer):
+        def visit_Name(self, n):
+          return ast.copy_location(ast.Name(id=param, ctx=n.ctx), n) if n.id == ren else n
+      import copy
+      sub = [R().visit(copy.deepcopy(t)) for t in sub]
+    return tests + sub
+  raise AnalysisError(f"{qual}: the dispatch does not end in raise NotImplementedError")
+
+
 def output_arms(ctx, qual):
   """Classes named positively by isinstance(v, ..) arms; checks the final raise."""
   mod = get_module(ctx, OUTPUT)
   fn = mod.func(qual)
   param = fn.args.args[2].arg
-  heads = [s for s in fn.body if isinstance(s, ast.If)]
-  if len(heads) != 1:
-    raise AnalysisError(f"{qual}: expected one if/elif chain, found {len(heads)}")
-  chain, els = _c05.if_chain(heads[0])
-  if not (len(els) == 1 and isinstance(els[0], ast.Raise)
-          and "NotImplementedError" in src(els[0])):
-    raise AnalysisError(f"{qual}: chain no longer ends in raise NotImplementedError")
   covered = []
-  for test, _ in chain:
+  for test in _dispatch_tests(mod, qual.split(".")[0], fn, param):
+    parent = {c: p_ for p_ in ast.walk(test) for c in ast.iter_child_nodes(p_)}
     for call in calls_in(test, name="isinstance"):
-      par = mod.parent.get(call)
+      par = parent.get(call)
       if isinstance(par, ast.UnaryOp) and isinstance(par.op, ast.Not):
         continue
       if len(call.args) == 2 and dotted(call.args[0]) == param:
@@ -737,14 +803,14 @@ def r6_3(ctx):
             {"returns": det, "stored": src(stores[0].value)})
   # Loader.load_module
   lm = lmod.func("Loader.load_module")
-  ok, det = _classify_returns(lm, _relink_flow(lm), ("self.process_module",),
+  ok, det = _classify_returns(lm, _relink_flow(lm, None, lmod, "Loader"), ("self.process_module",),
                               lambda d: f"filled:{d}")
   ctx.check(ok, "Loader.load_module:returns", LOAD, lm.lineno,
             f"Loader.load_module must return a cached AST or process_module's "
             f"result: {det}", {"returns": det})
   # PickledPyiLoader.load_module
   pl = lmod.func("PickledPyiLoader.load_module")
-  f = _relink_flow(pl)
+  f = _relink_flow(pl, None, lmod, "PickledPyiLoader")
   ok, det = _classify_returns(pl, f, ("super().load_module",),
                               lambda d: f"relinked:{d}")
   ctx.check(ok, "PickledPyiLoader.load_module:returns", LOAD, pl.lineno,
@@ -767,7 +833,7 @@ def r6_3(ctx):
   for q in ("PickledPyiLoader.load_module",
             "Loader._resolve_classtype_pointers_for_all_modules"):
     fn = lmod.func(q)
-    ff = _relink_flow(fn)
+    ff = _relink_flow(fn, None, lmod, q.split(".")[0])
     sets = [n for n in walk_no_nested(fn) if isinstance(n, ast.Assign)
             and (src(n.targets[0])).endswith(".has_unresolved_pointers")
             and try_fold(n.value, default=None) is False]
@@ -854,16 +920,19 @@ def r6_3(ctx):
         out.append("external")
     return out
   fpa = _relink_flow(pa, gen_pa)
-  local_stmts = [n for n in walk_no_nested(pa) if isinstance(n, ast.Assign)
-                 and isinstance(n.value, ast.Call)
-                 and dotted(n.value.func) == "FillLocalReferences"]
+  # the one FillLocalReferences(..) call: bound to a local whose .ast is returned, or its .ast returned directly
+  fills = calls_in(pa, name="FillLocalReferences")
   rets = [(n, st) for k, n, st in fpa.exits if k == "return"]
-  ok = len(local_stmts) == 1 and bool(rets)
+  ok = len(fills) == 1 and bool(rets)
   if ok:
-    v = dotted(local_stmts[0].targets[0])
-    ok = "external" in (fpa.before.get(local_stmts[0]) or frozenset())
+    site = smod.enclosing_stmt(fills[0])
+    v = dotted(site.targets[0]) if isinstance(site, ast.Assign) and site.value is fills[0] \
+        and len(site.targets) == 1 else None
+    ok = "external" in (fpa.before.get(site) or frozenset()) and (v is not None or isinstance(site, ast.Return))
     for n, st in rets:
-      ok = ok and dotted(n.value) == f"{v}.ast" and f"relinked:{v}" in (st or frozenset())
+      direct = isinstance(n.value, ast.Attribute) and n.value.attr == "ast" and n.value.value is fills[0]
+      ok = ok and (direct or (v is not None and dotted(n.value) == f"{v}.ast"
+                              and f"relinked:{v}" in (st or frozenset())))
     ok = ok and all(k != "end" for k, _, _ in fpa.exits)
   ctx.check(ok, "serialize_ast.ProcessAst", SERIALIZE, pa.lineno,
             "ProcessAst must call _LookupClassReferences, then "
@@ -1303,6 +1372,17 @@ VARIANTS = [
      "expect": "silent",
      "old": "    elif isinstance(v, function.ParamSpecMatch):\n      return pytd.AnythingType()\n    elif isinstance(v, abstract.ParamSpecArgs):\n      return pytd.AnythingType()\n",
      "new": "    elif isinstance(v, (function.ParamSpecMatch, abstract.ParamSpecArgs)):\n      return pytd.AnythingType()\n"},
+    # the dispatch flattened into early returns + trailing raise and continued in a helper method (C06-r4)
+    {"name": "twin-benign-C06-r4-dispatch-as-early-returns-split-in-two", "rule": "R6.2",
+     "patch": "benign/C06-r4/patch.diff", "expect": "silent"},
+    {"name": "C06-r4+helper-loses-BuildClass-arm", "rule": "R6.2",
+     "patch": "benign/C06-r4/defect_helper_loses_BuildClass_arm.diff", "expect": "fire"},
+    {"name": "C06-r4+helper-arm-falls-through-to-raise", "rule": "R6.2",
+     "patch": "benign/C06-r4/defect_helper_arm_falls_through.diff", "expect": "fire"},
+    {"name": "C06-r4+tail-call-dropped", "rule": "R6.2",
+     "patch": "benign/C06-r4/defect_tail_call_dropped.diff", "expect": "fire"},
+    {"name": "C06-r4+def-loses-Unsolvable-arm", "rule": "R6.2",
+     "patch": "benign/C06-r4/defect_def_loses_Unsolvable_arm.diff", "expect": "fire"},
     # R6.3
     {"name": "process_module-skips-fill", "rule": "R6.3", "file": LOAD,
      "expect": "fire",
@@ -1367,6 +1447,37 @@ VARIANTS = [
      "expect": "silent",
      "old": "    self._modules[module_name].ast = ast\n    self._modules[module_name].pickle = None\n    self._modules[module_name].has_unresolved_pointers = False",
      "new": "    self._modules[module_name].has_unresolved_pointers = False\n    self._modules[module_name].pickle = None\n    self._modules[module_name].ast = ast"},
+    # R6.3 on refactored shapes: the benign refactoring stays silent, the refactoring plus a defect fires
+    {"name": "twin-benign-C06-r1-process_module-body-in-helper", "rule": "R6.3",
+     "patch": "benign/C06-r1/patch.diff", "expect": "silent"},
+    {"name": "C06-r1+helper-skips-fill", "rule": "R6.3",
+     "patch": "benign/C06-r1/defect_helper_skips_fill.diff", "expect": "fire"},
+    {"name": "C06-r1+helper-fill-only-for-named", "rule": "R6.3",
+     "patch": "benign/C06-r1/defect_helper_fill_only_for_named.diff", "expect": "fire"},
+    {"name": "C06-r1+helper-transform-after-fill", "rule": "R6.3",
+     "patch": "benign/C06-r1/defect_helper_transform_after_fill.diff", "expect": "fire"},
+    {"name": "C06-r1+caller-transform-after-helper", "rule": "R6.3",
+     "patch": "benign/C06-r1/defect_caller_transform_after_helper.diff", "expect": "fire"},
+    {"name": "C06-r1+helper-early-return", "rule": "R6.3",
+     "patch": "benign/C06-r1/defect_helper_early_return.diff", "expect": "fire"},
+    {"name": "C06-r1+helper-called-for-other-module", "rule": "R6.3",
+     "patch": "benign/C06-r1/defect_helper_called_for_other_module.diff", "expect": "fire"},
+    {"name": "twin-benign-C06-r2-ProcessAst-returns-fill-result-directly", "rule": "R6.3",
+     "patch": "benign/C06-r2/patch.diff", "expect": "silent"},
+    {"name": "C06-r2+ProcessAst-skips-local-fill", "rule": "R6.3",
+     "patch": "benign/C06-r2/defect_ProcessAst_skips_local_fill.diff", "expect": "fire"},
+    {"name": "C06-r2+ProcessAst-local-before-external", "rule": "R6.3",
+     "patch": "benign/C06-r2/defect_ProcessAst_local_before_external.diff", "expect": "fire"},
+    {"name": "C06-r2+ProcessAst-returns-unfilled-alias", "rule": "R6.3",
+     "patch": "benign/C06-r2/defect_ProcessAst_returns_unfilled_alias.diff", "expect": "fire"},
+    {"name": "C06-r2+FillLocalReferences-returns-early", "rule": "R6.3",
+     "patch": "benign/C06-r2/defect_FillLocalReferences_returns_early.diff", "expect": "fire"},
+    {"name": "twin-benign-C06-r3-constant_to_value-flattened", "rule": "R6.3",
+     "patch": "benign/C06-r3/patch.diff", "expect": "silent"},
+    {"name": "twin-ProcessAst-returns-fill-result-directly", "rule": "R6.3", "file": SERIALIZE,
+     "expect": "silent",
+     "old": "  serializable_ast = FillLocalReferences(\n      serializable_ast,\n      {\n          \"\": serializable_ast.ast,\n          serializable_ast.ast.name: serializable_ast.ast,\n      },\n  )\n  return serializable_ast.ast",
+     "new": "  return FillLocalReferences(\n      serializable_ast,\n      {\n          \"\": serializable_ast.ast,\n          serializable_ast.ast.name: serializable_ast.ast,\n      },\n  ).ast"},
     # R6.4
     {"name": "output-property-marker-respelled", "rule": "R6.4", "file": OUTPUT,
      "expect": "fire",
